@@ -845,3 +845,10 @@ M('k12-queue-deduplicated-by-sort-key', ['C06', 'C01', 'C04', 'C05'], S, "      
 M('k12-queue-filled-in-a-loop', ['C06', 'C01', 'C04', 'C05'], S, "        if isinstance(unattempted, list):\n            self._unattempted_fields.extend(unattempted)\n        else:\n            self._unattempted_fields.append(unattempted)\n        self._unattempted_fields.sort(key=sort_keys)\n",
   "        if not isinstance(unattempted, list):\n            unattempted = [unattempted]\n        for field in unattempted:\n            self._unattempted_fields.append(field)\n        self._unattempted_fields.sort(key=sort_keys)\n", None,
   'the queue filled element by element', expect='silent')
+M('r16-1-points-of-the-last-1098-only', ['C16'], Y22 + 'f1040_sa.py', "            mortgage_interest_points = sum([v[f'1098:{n}.box_1'] for n in range(i['1040.number_1098'])])\n            mortgage_interest_points += sum([v[f'1098:{n}.box_6'] for n in range(i['1040.number_1098'])])\n",
+  "            interest = 0.0\n            points = 0.0\n            for n in range(i['1040.number_1098']):\n                interest += v[f'1098:{n}.box_1']\n                points = v[f'1098:{n}.box_6']\n            mortgage_interest_points = interest + points\n", 'R16.1',
+  'the points of the Forms 1098 are assigned instead of added in the loop over the copies: the last copy wins (seed C16-V)')
+M('r16-1-points-added-in-one-loop', ['C16'], Y22 + 'f1040_sa.py', "            mortgage_interest_points = sum([v[f'1098:{n}.box_1'] for n in range(i['1040.number_1098'])])\n            mortgage_interest_points += sum([v[f'1098:{n}.box_6'] for n in range(i['1040.number_1098'])])\n",
+  "            interest = 0.0\n            points = 0.0\n            for n in range(i['1040.number_1098']):\n                interest += v[f'1098:{n}.box_1']\n                points += v[f'1098:{n}.box_6']\n            mortgage_interest_points = interest + points\n", None,
+  'the same totals added up in one loop', expect='silent')
+M('l7-refusal-named-but-not-called', ['C01', 'C09'], Y22 + 'f8889.py', "                self.not_implemented()\n", "                self.not_implemented\n", 'L', 'the refusal of Form 8889 line 3 loses its call parentheses: nothing is refused (seed C01-U)')
